@@ -124,3 +124,63 @@ def _meqs(L):
     L.prove("empty_group_starts_at_zero", "implies(len(l._reference_nodes) == 0, o.start_time == 0)")
     L.prove("starts_after_every_member", "forall(l._reference_nodes, lambda n: o.start_time >= n.end_time)")
     L.prove("starts_at_the_end_of_some_member", "implies(len(l._reference_nodes) > 0, exists(l._reference_nodes, lambda n: o.start_time == n.end_time))")
+
+
+# ---------------------------------------------------------------- building: where an added operation is attached
+GB = REF("CircuitGraphBranch")
+NODE = REF("OperationGraphNode")
+observer("CircuitGraphBranch.parent_of", params=dict(self=GB, node=REF("GraphNode")), returns=REF("GraphNode"), reads=["graph"])
+
+# link setter: interface contract (the five families assign their `relation` field; refinements below)
+contract("ICircuitOperation.relation_link.setter", params=dict(self=OP, link=REF("IRelationLink")), returns=None, verify=False,
+         modifies=REL_FIELDS,
+         ensures=["self.relation_link is link",
+                  "forall_obj(ICircuitOperation, lambda o: o is self or o.relation_link is old(o.relation_link))"])
+for c in FAMILIES:
+    refines(f"{c}.relation_link.setter", "ICircuitOperation.relation_link.setter", props=P)
+
+# pointer surgery (assumed contract; checked on every tree of <= 8 nodes in every insertion order by the bounded stand-in of C02):
+# the new node hangs below the given end-point, every other node keeps its parent, nothing is lost or duplicated
+APPEND_ENS = [
+    "result is self",
+    "len(self.get_node_iterator()) == len(old(self.get_node_iterator())) + 1",
+    "forall(old(self.get_node_iterator()), lambda n: exists(self.get_node_iterator(), lambda m: m is n) and self.parent_of(n) is old(self.parent_of(n)))",
+    "exists(self.get_node_iterator(), lambda m: m is pointer)",
+    "self.parent_of(pointer) is endpoint",
+    "forall(self.get_node_iterator(), lambda m: m is pointer or exists(old(self.get_node_iterator()), lambda n: n is m))",
+]
+contract("CircuitGraphBranch.append_pointer_to", params=dict(self=GB, endpoint=REF("GraphNode"), pointer=NODE), returns=GB, verify=False,
+         modifies=["graph"], requires=["forall(self.get_node_iterator(), lambda n: n is not pointer)"], ensures=APPEND_ENS)
+observer("CircuitGraphBranch.root_node", params=dict(self=GB), returns=REF("GraphNode"), reads=[])
+
+LEAF = "old(graph.get_leaf_at_any(operation.channel_identifiers))"
+HAD = "old(operation.relation_link.reference_node is not None)"
+RELNODE = "old(graph.get_corresponding_node(operation.relation_link.reference_node))"
+IMPLICIT = ("let(operation.relation_link, lambda l: typeis(l, RelationLink) and fresh(l) and "
+            "l._reference_node is {leaf}.operation and l._relation_type == RelationType.FOLLOWED_BY)")
+contract("CircuitGraphBranch.add_to_graph", params=dict(graph=GB, operation=OP), returns=GB, props=P, inst_depth=2,
+         modifies=REL_FIELDS + ["graph"],
+         requires=["forall(graph.get_node_iterator(), lambda n: n.operation is not operation)"],
+         ensures=[
+             "result is graph",
+             # exactly one new node, carrying the operation; every old node keeps its place
+             "len(graph.get_node_iterator()) == len(old(graph.get_node_iterator())) + 1",
+             "forall(old(graph.get_node_iterator()), lambda n: exists(graph.get_node_iterator(), lambda m: m is n) and graph.parent_of(n) is old(graph.parent_of(n)))",
+             "exists(graph.get_node_iterator(), lambda m: fresh(m) and m.operation is operation)",
+             # no other operation's relation is touched
+             "forall_obj(ICircuitOperation, lambda o: o is operation or o.relation_link is old(o.relation_link))",
+             # an operation added WITH a relation to an operation of this circuit hangs below it and keeps its link
+             f"implies({HAD} and {RELNODE} is not None, operation.relation_link is old(operation.relation_link) and "
+             f"exists(graph.get_node_iterator(), lambda m: m.operation is operation and graph.parent_of(m) is {RELNODE}))",
+             # an operation added WITHOUT a relation is placed FOLLOWED_BY the deepest operation sharing one of its channels ...
+             f"implies(not {HAD} and {LEAF} is not None, " + IMPLICIT.format(leaf=LEAF) +
+             f" and exists(graph.get_node_iterator(), lambda m: m.operation is operation and graph.parent_of(m) is {LEAF}))",
+             # ... or at the circuit start if there is none
+             f"implies(not {HAD} and {LEAF} is None, operation.relation_link is old(operation.relation_link) and "
+             f"exists(graph.get_node_iterator(), lambda m: m.operation is operation and graph.parent_of(m) is graph.root_node))",
+             # a relation to an operation that is NOT in this circuit is replaced as if there were none
+             f"implies({HAD} and {RELNODE} is None and {LEAF} is not None, " + IMPLICIT.format(leaf=LEAF) +
+             f" and exists(graph.get_node_iterator(), lambda m: m.operation is operation and graph.parent_of(m) is {LEAF}))",
+             f"implies({HAD} and {RELNODE} is None and {LEAF} is None, operation.relation_link.reference_node is None and "
+             f"exists(graph.get_node_iterator(), lambda m: m.operation is operation and graph.parent_of(m) is graph.root_node))",
+         ])
